@@ -1376,6 +1376,7 @@ pub fn directed(ver: Ver) -> Vec<Directed> {
             Op::Fail,
             Op::Reconnect(connack(true, None, None)),
             Op::Replay,
+            Op::Replay, // the parked publish, if clean() carries it over
             b(vec![ack(1)]),
             b(vec![ack(1)]),
         ],
